@@ -14,7 +14,7 @@ func init() {
 		run: runC18,
 		explanation: "Decided (structural, for every interleaving of AddRow calls, both writers): " +
 			"C18.locked — in everything reachable from AddRow, every access to the writer's fields (row counter, schema, bitmap map, temp transaction) and to the schema's and columns' maps happens with the writer's mutex held exclusively on every path (lock-state dataflow; callee context = meet over call sites; deferred unlock and deferred increment closure replayed in LIFO order, so swapping the two defers or narrowing the critical section is reported); " +
-			"C18.rowid — the id a call adds to every bitmap / encodes into every temp key (directly or in a helper it calls, whose parameter is bound to the call's argument) and the id it returns are the same SSA value, the load of the row counter taken under the lock; the only stores to the counter anywhere are `counter + 1`, and every successful return of AddRow has passed exactly one such increment. " +
+			"C18.rowid — the id a call adds to every bitmap / encodes into every temp key (directly or in a helper it calls, whose parameter is bound to the call's argument) and the id it returns are the same SSA value, the load of the row counter taken under the lock; the only stores to the counter anywhere are `counter + 1`, and every successful return of AddRow has passed exactly one such increment (the counter and the schema may live in a struct the writer holds by value — an embedded header shared with the Index: 'the writer's counter' is then that field selected from an object of the writer's type; an increment inside a method of the nested struct counts at the Call/Defer in AddRow that runs it on the writer's own struct, a call of it on the writer anywhere else is a modification outside AddRow, and its accesses are checked by C18.locked with the lock state at that call resp. at rundefers). " +
 			"C18.lockbalance — every mutex field a function reachable from AddRow/Flush acquires is released (directly or by a deferred unlock registered on that path) on every path to every return: a call that leaves the writer mutex locked blocks all other callers for ever. " +
 			"Hence calls are mutually exclusive, each gets one id, ids are consecutive from 0 and each row's values carry one id. " +
 			"NOT decided: equality of the flushed index with the sequential one (follows from mutual exclusion and commutativity of bitmap Add; not checked as such); Flush concurrent with AddRow (outside the property).",
@@ -64,7 +64,15 @@ func lockedRule(c *Ctx, rule, wname string, addRow *ssa.Function, typ *types.Nam
 	for _, p := range la.Problems {
 		c.r.undecided(rule, wname+": defer in "+safeFname(p.ins.Parent()), p.msg, c.w.ipos(p.ins))
 	}
-	guarded := structFields(typ, mtx)
+	// the writer's own state: its fields and the fields of the structs it holds by value (an embedded
+	// `header{schema; nextRowID}` is part of the writer's memory; a method of the nested struct that AddRow calls or defers —
+	// `defer idx.rowAdded()` — touches it through its own receiver, with the lock state AddRow has at the call / at rundefers)
+	guarded := map[*types.Var]bool{}
+	for _, f := range heldFields(typ) {
+		if f != mtx {
+			guarded[f] = true
+		}
+	}
 	for f := range structFields(c.a.SchemaT, nil) {
 		guarded[f] = true
 	}
@@ -74,8 +82,17 @@ func lockedRule(c *Ctx, rule, wname string, addRow *ssa.Function, typ *types.Nam
 	fr := newFresh(c)
 	n := 0
 	for _, fn := range re.sorted() {
-		for _, a := range fieldAccesses(fn, guarded) {
-			if baseFresh(fr, a.Ins) {
+		accs := fieldAccesses(fn, guarded)
+		// `idx.header.nextRowID` is an access of the counter, reported as such; the same instruction is not reported a
+		// second time as an access of the nested struct it goes through (a copy of the whole struct still is)
+		leaf := map[ssa.Instruction]bool{}
+		for _, a := range accs {
+			if nestedStruct(a.Field) == nil {
+				leaf[a.Ins] = true
+			}
+		}
+		for _, a := range accs {
+			if baseFresh(fr, a.Ins) || (nestedStruct(a.Field) != nil && leaf[a.Ins]) {
 				continue
 			}
 			n++
@@ -111,10 +128,14 @@ func rowidRule(c *Ctx, rule, wname string, addRow *ssa.Function, typ *types.Name
 		return
 	}
 	site := c.w.pos(addRow.Pos())
-	isCtrAddr := func(v ssa.Value) bool {
+	// the counter may live in a struct the writer holds by value (`header`, embedded in both writers and in the Index): the
+	// same field then is the counter of several types, and "this writer's counter" is the field selected from an object of
+	// the writer's type (nested struct looked through: &idx.header.nextRowID with idx *IndexWriter)
+	isCtrField := func(v ssa.Value) bool {
 		fa, ok := v.(*ssa.FieldAddr)
 		return ok && fieldOf(fa.X.Type(), fa.Field) == ctr
 	}
+	isCtrAddr := func(v ssa.Value) bool { return isCtrField(v) && holderType(v) == typ }
 	// (1) loads of the counter in AddRow itself: exactly one, its value is "the id"
 	var loads []*ssa.UnOp
 	allInstrs(addRow, func(i ssa.Instruction) {
@@ -190,7 +211,10 @@ func rowidRule(c *Ctx, rule, wname string, addRow *ssa.Function, typ *types.Name
 		return
 	}
 	id := ssa.Value(loads[0])
-	isID := func(v ssa.Value) bool { return peelConv(v) == id || v == id }
+	// (the id may travel through a named result `rowID`, which error returns overwrite with 0: the store that reaches the use decides)
+	isID := func(v ssa.Value) bool {
+		return peelConv(v) == id || v == id || c.fc.reachingValue(v) == id
+	}
 	// (2) successful returns return the id
 	nRet := 0
 	allInstrs(addRow, func(i ssa.Instruction) {
@@ -235,18 +259,51 @@ func rowidRule(c *Ctx, rule, wname string, addRow *ssa.Function, typ *types.Name
 		c.r.bad(rule, wname+": use", "AddRow never records the row id with the row's values", []string{site})
 	}
 	// (4) stores to the counter anywhere in the module: only counter+1 of its own load
-	var incs []ssa.Instruction // in AddRow's frame: the store itself, or the Defer/Call that runs the closure containing it
+	var incs []ssa.Instruction // in AddRow's frame: the store itself, or the Defer/Call that runs the closure / the method containing it
+	incUnknown := false        // an increment in a method of the nested struct whose call on this writer could not be located
+	// runBy: the instructions of AddRow that call or defer its closure g
+	runBy := func(g *ssa.Function, key string) []ssa.Instruction {
+		var out []ssa.Instruction
+		allInstrs(addRow, func(j ssa.Instruction) {
+			if cc := callCommon(j); cc != nil && calleeFunc(cc) == g {
+				if _, isGo := j.(*ssa.Go); isGo {
+					c.r.bad(rule, key, "the counter is incremented in a new goroutine", []string{c.w.ipos(j)})
+					return
+				}
+				out = append(out, j)
+			}
+		})
+		return out
+	}
 	for _, fn := range c.w.ModFuncs {
 		allInstrs(fn, func(i ssa.Instruction) {
 			st, ok := i.(*ssa.Store)
-			if !ok || !isCtrAddr(st.Addr) {
+			if !ok || !isCtrField(st.Addr) {
 				return
+			}
+			// whose counter: this writer's; the counter of a nested struct the function receives as a parameter (a method of
+			// `header`: the call sites say which object it is part of); or that of another type that holds the same struct
+			// (the Index, the other writer: theirs is checked where they are) / of a struct value not yet part of any object
+			var helperParam *ssa.Parameter
+			if !isCtrAddr(st.Addr) {
+				helperParam = nestedParam(st.Addr, typ)
+				if helperParam == nil {
+					hT := holderType(st.Addr)
+					if hT != typ && c.a.isRowsHolder(hT) {
+						return // the Index's / the other writer's counter
+					}
+					if k, isK := constInt(st.Val); isK && k == 0 {
+						return // explicit zero initialisation of a struct value
+					}
+					c.r.undecided(rule, fmt.Sprintf("%s: store in %s", wname, safeFname(fn)), "the row counter of a "+typeString(fieldHolder(st.Addr).Type())+" that is not identified as part of a writer or of the Index is assigned: if it becomes the writer's, ids do not start at 0 / are not consecutive", c.w.ipos(i))
+					return
+				}
 			}
 			key := fmt.Sprintf("%s: store in %s", wname, safeFname(fn))
 			okInc := false
 			if b, ok := st.Val.(*ssa.BinOp); ok && b.Op == token.ADD {
 				if k, isK := constInt(b.Y); isK && k == 1 {
-					if ld, ok := b.X.(*ssa.UnOp); ok && ld.Op == token.MUL && isCtrAddr(ld.X) && sameFieldBase(ld.X, st.Addr) {
+					if ld, ok := b.X.(*ssa.UnOp); ok && ld.Op == token.MUL && isCtrField(ld.X) && sameFieldBase(ld.X, st.Addr) {
 						okInc = true
 					}
 				}
@@ -257,22 +314,54 @@ func rowidRule(c *Ctx, rule, wname string, addRow *ssa.Function, typ *types.Name
 			}
 			// locate the increment in AddRow's frame
 			switch {
+			case helperParam != nil:
+				// the increment is a method of the nested struct (`func (h *header) rowAdded() { h.nextRowID++ }`): every call of
+				// it on THIS writer's struct is "the increment" — the Call/Defer in AddRow's frame (`defer idx.rowAdded()`), on
+				// which the obligations below (exactly once per successful return, after the id was read) and C18.locked (the
+				// method's accesses, with the lock state at the call / at rundefers) are decided. A call on this writer's struct
+				// anywhere else modifies the counter outside AddRow.
+				if c.usedAsValue(fn) {
+					incUnknown = true
+					c.r.undecided(rule, key, safeFname(fn)+" increments the counter and is used as a function value: where it runs is not followed", c.w.ipos(i))
+					return
+				}
+				found, clean := false, true
+				for _, s := range c.bindingSites(fn, helperParam) {
+					switch {
+					case s.T == nil:
+						clean, incUnknown = false, true
+						c.r.undecided(rule, key, safeFname(fn)+" increments the counter of the "+typeString(helperParam.Type())+" it is called on; at this call that is not the struct held by a writer or the Index (handed on from a parameter, or a local): whose counter advances is not followed", c.w.ipos(s.at))
+					case s.T != typ:
+						// the other writer's / the Index's struct
+					case s.in == addRow:
+						if _, isGo := s.at.(*ssa.Go); isGo {
+							clean = false
+							c.r.bad(rule, key, "the counter is incremented in a new goroutine", []string{c.w.ipos(s.at)})
+							continue
+						}
+						incs = append(incs, s.at)
+						found = true
+					case s.in.Parent() == addRow:
+						// called from a closure of AddRow (`defer func() { idx.rowAdded() }()`): the instruction of AddRow that runs the closure
+						for _, j := range runBy(s.in, key) {
+							incs = append(incs, j)
+							found = true
+						}
+					default:
+						clean = false
+						c.r.bad(rule, key, "the row counter is modified outside AddRow ("+safeFname(s.in)+" calls "+safeFname(fn)+" on the writer)", []string{c.w.ipos(s.at)})
+					}
+				}
+				if found && clean {
+					c.r.ok(rule, key, "counter+1 in a method of the struct that holds the counter, run by AddRow on the writer's own", c.w.ipos(i))
+				}
 			case fn == addRow:
 				incs = append(incs, st)
 				c.r.ok(rule, key, "counter+1", c.w.ipos(i))
 			case fn.Parent() == addRow:
-				found := false
-				allInstrs(addRow, func(j ssa.Instruction) {
-					if cc := callCommon(j); cc != nil && calleeFunc(cc) == fn {
-						if _, isGo := j.(*ssa.Go); isGo {
-							c.r.bad(rule, key, "the counter is incremented in a new goroutine", []string{c.w.ipos(j)})
-							return
-						}
-						incs = append(incs, j)
-						found = true
-					}
-				})
-				if found {
+				js := runBy(fn, key)
+				incs = append(incs, js...)
+				if found := len(js) > 0; found {
 					c.r.ok(rule, key, "counter+1 in a closure run by AddRow", c.w.ipos(i))
 				} else {
 					c.r.undecided(rule, key, "closure incrementing the counter is not called/deferred directly by AddRow", c.w.ipos(i))
@@ -283,6 +372,9 @@ func rowidRule(c *Ctx, rule, wname string, addRow *ssa.Function, typ *types.Name
 		})
 	}
 	if len(incs) == 0 {
+		if incUnknown {
+			return // reported above as undecided: an increment exists, where it runs was not followed
+		}
 		c.r.bad(rule, wname+": increment", "AddRow never increments the row counter: every row would get the same id", []string{site})
 		return
 	}
